@@ -34,6 +34,7 @@ def tasks_for(unit, tier):
     else:   # MatrixMarket reader at token level: n = number of lines, m = 1 valid banner / 0 any banner
         for nl in unit["header_lines"][q]: out.append(dict(harness="mm_sparse_robust", n=nl, m=0, range=(-1, -1), fn="h_mm_sparse_robust", defines=[]))
         for nl, rng in unit["body"][q]: out.append(dict(harness="mm_sparse_robust", n=nl, m=1, range=rng, fn="h_mm_sparse_robust", defines=[]))
+        for nl, rng in unit["dense"][q]: out.append(dict(harness="mm_dense_robust", n=nl, range=rng, fn="h_mm_dense_robust", defines=[]))
         for nl, size, rng in unit["slice"][q]: out.append(dict(harness="mm_slice", n=nl, m=size, range=rng, fn="h_mm_slice", defines=[]))
     return out
 
